@@ -88,6 +88,10 @@ struct Dev {
     op_fill: Option<(usize, u32)>,
     spins: u64,
     rx_notifies: usize,
+    /// plan: fill the re-posted receive buffer synchronously when its notification arrives
+    notify_fill: Option<(usize, u32)>,
+    /// what happened: (bytes, claim, buffers outstanding when the notification arrived)
+    notify_filled: Option<(usize, u32, u16)>,
     /// `pos` at each receive-queue notification of the current call
     post_marks: Vec<u64>,
 }
@@ -190,6 +194,12 @@ impl Dev {
             self.rx_notifies += 1;
             self.post_marks.push(self.pos);
             self.check_rx("at notification");
+            if let Some((n, cl)) = self.notify_fill.take() {
+                let rx = self.rx_outstanding();
+                if self.fill(n, cl) {
+                    self.notify_filled = Some((n, cl, rx));
+                }
+            }
         } else if queue == 1 && self.tx_on_notify {
             self.serve_tx();
         }
@@ -396,6 +406,9 @@ fn one_case(ctx: &Ctx, stream: &str, idx: usize, id: String, hostile: bool) -> C
     use embedded_io::{BufRead, Read, ReadReady};
     let mut rng = ctx.case_rng(stream, idx);
     hal::reset();
+    // half of the honest cases run on a platform that shares buffers in place (no bounce buffers)
+    let inplace = !hostile && idx % 2 == 1;
+    hal::with(|h| h.inplace = inplace);
     let seed = rng.below(60000);
     let mut offered = F_VERSION_1;
     for f in [F_SIZE, F_EMERG, F_INDIRECT, F_EVENT_IDX, F_ACCESS_PLATFORM] {
@@ -438,6 +451,8 @@ fn one_case(ctx: &Ctx, stream: &str, idx: usize, id: String, hostile: bool) -> C
         op_fill: None,
         spins: 0,
         rx_notifies: 0,
+        notify_fill: None,
+        notify_filled: None,
         post_marks: vec![],
     }));
     DEV.with(|d| *d.borrow_mut() = Some(dev.clone()));
@@ -447,6 +462,7 @@ fn one_case(ctx: &Ctx, stream: &str, idx: usize, id: String, hostile: bool) -> C
     }
     let mut sim = Sim { dev: dev.clone(), con: None, case: Case::new(id), seed, returned: 0, last_slice: vec![], honest: true, dead: false, stalls: 0, blocked_calls: 0, sent: 0 };
     sim.case.tag(if hostile { "stream=hostile" } else { "stream=honest" });
+    sim.case.tag(if inplace { "platform=inplace" } else { "platform=bounce" });
 
     // ---- construction ----
     let r = guarded(|| Con::new(t));
@@ -526,7 +542,21 @@ fn one_case(ctx: &Ctx, stream: &str, idx: usize, id: String, hostile: bool) -> C
                 let pop = k < 14;
                 *kinds.entry(if pop { "recv_pop" } else { "recv_peek" }).or_default() += 1;
                 let nt0 = sim.begin(Mode::Idle, &mut rng, hostile);
+                // a device that reacts to the notification at once: if this call re-posts the receive
+                // buffer, the next chunk is written into it before the call returns (on an in-place
+                // platform that is the driver's own buffer)
+                if pop && !hostile && rng.chance(1, 2) {
+                    let mut d = sim.dev.borrow_mut();
+                    let n = chunk_len(&mut rng, d.cap);
+                    d.notify_fill = Some((n, n as u32));
+                    d.raise_isr = false;
+                }
                 let r = guarded(|| con.recv(pop));
+                let nf = {
+                    let mut d = sim.dev.borrow_mut();
+                    d.notify_fill = None;
+                    d.notify_filled.take()
+                };
                 if let Ok(Ok(v)) = &r {
                     match v {
                         Some(b) => {
@@ -546,7 +576,22 @@ fn one_case(ctx: &Ctx, stream: &str, idx: usize, id: String, hostile: bool) -> C
                     None => "ok none".into(),
                     Some(b) => format!("ok byte {:02x}", b),
                 });
-                sim.finish(format!("con recv pop={}", pop as u8), o, p, nt0, "recv");
+                match nf {
+                    None => sim.finish(format!("con recv pop={}", pop as u8), o, p, nt0, "recv"),
+                    Some((n, cl, rx_at)) => {
+                        // recorded as the call (as seen when its notification arrived) followed by
+                        // the device's fill
+                        let nt = sim.dev.borrow().rx_notifies - nt0;
+                        sim.after_call("recv");
+                        sim.case.step(format!("con recv pop={}", pop as u8), format!("{} | rx={} nt={}", o, rx_at, nt));
+                        if p {
+                            sim.dead = true;
+                        }
+                        let nt1 = sim.dev.borrow().rx_notifies;
+                        sim.finish(format!("con dev fill={} claim={}", n, cl), "filled".into(), false, nt1, "device");
+                        sim.case.tag("device_filled_at_notification");
+                    }
+                }
             }
             20..=33 => {
                 // bulk read (blocking when nothing is pending)
@@ -817,6 +862,30 @@ fn one_case(ctx: &Ctx, stream: &str, idx: usize, id: String, hostile: bool) -> C
             let pos = sim.dev.borrow().pos;
             if sim.returned != pos {
                 sim.case.fail(format!("after draining, {} bytes returned but the device wrote {} (bytes lost)", sim.returned, pos));
+            }
+        }
+        if hostile && !sim.dead {
+            // hostile epilogue (oracles only, nothing recorded for the model): the device reports a
+            // completion whose id is not the outstanding receive request, then the caller keeps
+            // polling.  The receive buffer must not be handed out a second time while it is still
+            // shared (ledger: overlapping share), nothing may be unshared twice.
+            let bogus = {
+                let mut d = dev.borrow_mut();
+                d.fetch_rx();
+                match d.rx.as_mut() {
+                    Some(q) => {
+                        let n = q.size.max(2);
+                        let id = q.inflight.first().map(|c| (c.head + 1) % n).unwrap_or(1 % n);
+                        q.push_used_raw(id as u32, 1).is_ok()
+                    }
+                    None => false,
+                }
+            };
+            if bogus {
+                for _ in 0..3 {
+                    let _ = guarded(|| con.recv(true));
+                }
+                sim.case.tag("epilogue:bogus_rx_id");
             }
         }
         sim.con = Some(con);
